@@ -87,7 +87,7 @@ PlaceKind(a) == IF a.where = "dn" THEN a.type
 ReqStringEv(ev) ==
   IF ev.out # "Ok" THEN { <<"C13.accepted_value_serialises", ev.op # "StringPlace">>, <<"C13.constructor_total", ev.op = "StringPlace">> }
   ELSE CASE ev.op = "StringRuns" ->
-              { <<"C13.all_values_judged", Tiles(ev.args.dom, ev.obs.runs)>>,
+              { <<"C13.all_values_judged", IF "top" \in DOMAIN ev.args THEN TilesUpTo(ev.args.dom, ev.obs.runs, ev.args.top) ELSE Tiles(ev.args.dom, ev.obs.runs)>>,
                 <<"C13.accept_iff_in_alphabet", \A i \in DOMAIN ev.obs.runs : RunAgrees(ev.args.dom, ev.args.type, ev.obs.runs[i])>>,
                 <<"C13.transfer_encoding_eq", \A i \in DOMAIN ev.obs.runs : \A j \in DOMAIN ev.obs.runs[i].samples :
                      LET sm == ev.obs.runs[i].samples[j]
